@@ -37,11 +37,12 @@ class Obligation:
 
 
 class PathResult:
-    __slots__ = ("decisions", "pc", "value", "raised", "obligations", "ended", "path_id", "notes")
+    __slots__ = ("decisions", "pc", "value", "raised", "obligations", "ended", "path_id", "notes", "ghost")
 
     def __init__(self):
         self.decisions = []
         self.pc = []
+        self.ghost = set()  # ids of pc literals that only constrain ghost state (not used for pruning)
         self.value = None
         self.raised = None
         self.obligations = []
@@ -81,11 +82,12 @@ class Explorer:
     def _feasible(self, extra):
         if not self.prune:
             return True
-        key = (tuple(n.id for n in self._path.pc), extra.id)
+        core = [n for n in self._path.pc if n.id not in self._path.ghost]
+        key = (tuple(n.id for n in core), extra.id)
         r = self._sat_cache.get(key)
         if r is None:
             t0 = time.time()
-            st, _, _ = smt.check_sat(self._path.pc + [extra], self.prune_timeout, want_model=False, use_cvc5=False)
+            st, _, _ = smt.check_sat(core + [extra], self.prune_timeout, want_model=False, use_cvc5=False)
             self.stats["prune_queries"] += 1
             self.stats["prune_time"] += time.time() - t0
             r = st != "unsat"
@@ -171,13 +173,17 @@ class Explorer:
         return list(self._path.decisions)
 
     # -- contract interface
-    def assume(self, cond):
+    def assume(self, cond, ghost=False):
+        """ghost=True: the assumption only constrains ghost state; it is part of every obligation's hypotheses but is
+        left out of path-feasibility queries (pruning less is always sound)."""
         n = E._tobool(E.node_of(cond))
         if n.op == "const":
             if not n.val:
                 raise Infeasible()
             return
         self._path.pc.append(n)
+        if ghost:
+            self._path.ghost.add(n.id)
 
     def oblige(self, name, cond, kind="post", **meta):
         n = E._tobool(E.node_of(cond))
@@ -200,6 +206,9 @@ class Explorer:
                     raise BudgetExceeded("more than %d paths in %s" % (self.max_paths, self.name))
                 self._prefix = self._work.pop()
                 self._pos = 0
+                from . import symtorch as _st
+
+                _st._fresh_counter[0] = 0  # fresh names are per path, so identical sub-terms are shared across paths
                 p = PathResult()
                 p.path_id = len(self.paths)
                 self._path = p
@@ -245,8 +254,8 @@ def _complete(model, n):
 # convenience for contract code -------------------------------------------------
 
 
-def assume(cond):
-    cur().assume(cond)
+def assume(cond, ghost=False):
+    cur().assume(cond, ghost)
 
 
 def oblige(name, cond, kind="post", **meta):
